@@ -117,24 +117,10 @@ Definition parent_in (w : world) (i : id) : pref :=
   match w_nodes w i with Some n => n_parent n | None => PNone end.
 
 (* (i) set_character_data on an element that has sub-elements: the content list is replaced by the text, the
-       sub-elements keep their parent link *)
+       sub-elements keep their parent link.  Since fix 9caed4a the code rejects this for Mixed content, so the class
+       is only left for a Characters-mode element that has sub-elements (no table set lets one be created). *)
 Definition Known_setcdata (w : world) (o : op) : bool :=
   match o with OpSetCData h _ => node_has_elem w h | _ => false end.
-
-(* (ii) remove_file of the last file of a model: the root's content list is cleared, the children keep their
-        parent link *)
-Definition Known_removefile (w : world) (o : op) : bool :=
-  match o with
-  | OpRemoveFile m f =>
-    match nth_opt (w_models w) (N.to_nat m) with
-    | Some x => match index_of (N.eqb f) (m_files x) with
-                | Some pos => is_empty (swap_remove_at (m_files x) pos) && node_has_elem w (m_root x)
-                | None => false
-                end
-    | None => false
-    end
-  | _ => false
-  end.
 
 (* (iv) an element that is recorded in the reference-origin index and whose FIRST content item is a sub-element
         gets its text rewritten (content[0] is overwritten): on rename / move of a referenced element, and
@@ -176,7 +162,7 @@ Definition Known_failed_reparent (w : world) (o : op) : bool :=
   end.
 
 Definition Known (w : world) (o : op) : bool :=
-  Known_setcdata w o || Known_removefile w o || Known_failed_reparent w o || Known_refhead w o.
+  Known_setcdata w o || Known_failed_reparent w o || Known_refhead w o.
 
 (* all histories: run a list of operations, stopping at Pan / Fuel *)
 Fixpoint run_ops (l : list op) (w : world) : res world :=
